@@ -11,7 +11,8 @@
  * accept/reject and the normalised sizes, resize result, allocator balance (custom allocator).
  * On a violation: `ORACLE ...` on stderr, exit 3.
  *
- * usage: lfht_seq <seed> <nconfigs> <nseq> <maxops> [big]
+ * usage: lfht_seq <seed> <nconfigs> <nseq> <maxops> [big] [nohelper]
+ *   nconfigs = 0: only the differential test of the bit helpers (5000 random inputs)
  * Output is deterministic for a given command line (node ids are indexes, no addresses).
  */
 #include <stdarg.h>
@@ -632,7 +633,7 @@ static const char *mm_of(const struct cds_lfht_mm_type *m)
 		m == &cds_lfht_mm_mmap ? "mmap" : "?";
 }
 
-static int big;
+static int big, nohelper;
 
 static void pick_cfg(struct cfg *c)
 {
@@ -811,16 +812,20 @@ int main(int argc, char **argv)
 	int nconfigs, nseq, maxops, ci, si;
 
 	if (argc < 5) {
-		fprintf(stderr, "usage: lfht_seq <seed> <nconfigs> <nseq> <maxops> [big]\n");
+		fprintf(stderr, "usage: lfht_seq <seed> <nconfigs> <nseq> <maxops> [big] [nohelper]\n");
 		return 2;
 	}
 	g_seed = strtoul(argv[1], NULL, 0);
 	nconfigs = atoi(argv[2]);
 	nseq = atoi(argv[3]);
 	maxops = atoi(argv[4]);
-	if (argc > 5 && !strcmp(argv[5], "big")) {
-		big = 1;
-		size_limit = 1UL << 16;
+	for (ci = 5; ci < argc; ci++) {
+		if (!strcmp(argv[ci], "big")) {
+			big = 1;
+			size_limit = 1UL << 16;
+		} else if (!strcmp(argv[ci], "nohelper")) {
+			nohelper = 1;
+		}
 	}
 	rng_s = g_seed * 0x9E3779B97F4A7C15ULL + 0x1234567;
 	if (!rng_s) rng_s = 1;
@@ -828,7 +833,8 @@ int main(int argc, char **argv)
 	urcu_memb_register_thread();
 	printf("page %lu\n", (unsigned long)(getpagesize() / sizeof(struct cds_lfht_node)));
 	g_cfg = g_seq = -1;
-	helper_tests(nconfigs ? 200 : 5000);
+	if (!nohelper)
+		helper_tests(nconfigs ? 200 : 5000);
 	for (ci = 0; ci < nconfigs; ci++) {
 		struct cfg c;
 		pick_cfg(&c);
